@@ -125,8 +125,10 @@ func dirFiles(p *Pkg, dir string) []string {
 	return out
 }
 
-// shapeEdit applies one edit; `first` asks for the edit the shape is about.
-func shapeEdit(r *lib.Rng, st *shapeState, kind string, first bool) Edit {
+// shapeEdit applies one edit; the first edit (step 1) is the one the shape is about; for tmpdir the first two are
+// (break the command, repair it and drop a source).
+func shapeEdit(r *lib.Rng, st *shapeState, kind string, step int) Edit {
+	first := step == 1
 	st.counter++
 	n := st.counter
 	p := st.p()
@@ -237,6 +239,9 @@ func shapeEdit(r *lib.Rng, st *shapeState, kind string, first bool) Edit {
 			ca := t("ca")
 			if ca.Cmd.Op == "fail" {
 				k := lib.Pick(r, []string{"fix+drop", "fix+drop", "fix", "fix+add", "content"})
+				if step == 2 {
+					k = "fix+drop"
+				}
 				if len(ca.Srcs) < 2 && k == "fix+drop" {
 					k = "fix"
 				}
@@ -353,7 +358,7 @@ func EngRunShape(r *lib.Rng, base, kind string, steps int) []EngStep {
 	for i := 0; i <= steps; i++ {
 		ed := Edit{"initial", ""}
 		if i > 0 {
-			ed = shapeEdit(r, st, kind, i == 1)
+			ed = shapeEdit(r, st, kind, i)
 		}
 		ed.Kind = kind + ":" + ed.Kind
 		repo.Write(st.spec)
